@@ -49,6 +49,9 @@ pub struct Case {
     /// zero-area faces [a, a, b] over existing vertices, each inserted at a position of the face list
     #[serde(default)]
     pub slivers: Vec<(u16, u16, u16)>,
+    /// additionally run the whole chain with the mesh itself as the reference, once as the same object and once as a clone
+    #[serde(default)]
+    pub self_ref: bool,
 }
 
 const REPEATS: usize = 6;
@@ -73,14 +76,14 @@ impl Property for C14 {
         t.pick(240_000, 1_000_000)
     }
     fn expected_labels() -> Vec<&'static str> {
-        vec!["start_none", "start_all", "start_indices", "facing", "near", "near_angle", "near_planar", "all_points", "any_point", "add", "remove", "keep", "create_mesh", "changed>=2", "unreferenced_vertices", "zero_area_faces", "facing_own_face_normal"]
+        vec!["start_none", "start_all", "start_indices", "facing", "near", "near_angle", "near_planar", "all_points", "any_point", "add", "remove", "keep", "create_mesh", "changed>=2", "unreferenced_vertices", "zero_area_faces", "facing_own_face_normal", "self_reference"]
     }
     fn strategy(t: Tier) -> BoxedStrategy<Case> {
         let gmax = t.pick(6, 10);
         let target = prop_oneof![3 => open_kind(gmax), 2 => closed_kind(1)].boxed();
         let reference = prop_oneof![3 => grid_kind(6, false), 1 => closed_kind(1)].boxed();
-        (clean_mesh(target, 1.5), clean_mesh(reference, 1.0), prop_oneof![Just(Start::None), Just(Start::All), prop::collection::vec(any::<u16>(), 0..12).prop_map(Start::Indices)], prop::collection::vec((criterion(), prop::sample::select(vec![Op::Add, Op::Remove, Op::Keep])), 1..6), prop_oneof![3 => Just(vec![]), 1 => prop::collection::vec((any::<u16>(), p3(3.0)), 1..4)], prop_oneof![4 => Just(vec![]), 1 => prop::collection::vec((any::<u16>(), any::<u16>(), any::<u16>()), 1..4)])
-            .prop_map(|(mesh, reference, start, steps, orphans, slivers)| Case { mesh, reference, start, steps, orphans, slivers })
+        (clean_mesh(target, 1.5), clean_mesh(reference, 1.0), prop_oneof![Just(Start::None), Just(Start::All), prop::collection::vec(any::<u16>(), 0..12).prop_map(Start::Indices)], prop::collection::vec((criterion(), prop::sample::select(vec![Op::Add, Op::Remove, Op::Keep])), 1..6), prop_oneof![3 => Just(vec![]), 1 => prop::collection::vec((any::<u16>(), p3(3.0)), 1..4)], prop_oneof![4 => Just(vec![]), 1 => prop::collection::vec((any::<u16>(), any::<u16>(), any::<u16>()), 1..4)], prop::bool::weighted(0.25))
+            .prop_map(|(mesh, reference, start, steps, orphans, slivers, self_ref)| Case { mesh, reference, start, steps, orphans, slivers, self_ref })
             .boxed()
     }
     fn check(case: &Case) -> Verdict {
@@ -461,6 +464,23 @@ fn check(case: &Case) -> Verdict {
         a.sort();
         b.sort();
         ensure!(a == b, "C14/create_mesh/triangles", "create_mesh() triangles differ from create_from_indices(collect())");
+    }
+    // the reference is an argument like any other: the mesh itself, passed as the same object or as an equal copy, must
+    // give the same selection
+    if case.self_ref {
+        let copy = mesh.clone();
+        let run = |reference: &engeom::Mesh| {
+            let mut f = mesh.face_select(start_sel());
+            for (c, op) in &steps {
+                f = apply_fn(f, reference, c, *op);
+            }
+            let mut v = f.collect();
+            v.sort();
+            v
+        };
+        let (same_object, equal_copy) = (run(&mesh), run(&copy));
+        ensure!(same_object == equal_copy, "C14/near_mesh/reference_identity_matters", "with the mesh itself as reference the chain selects {:?}, with an equal copy of it {:?}", same_object, equal_copy);
+        cx.label("self_reference");
     }
     cx.label_if(changed_steps >= 2, "changed>=2");
     if steps.len() >= 2 && has_near_angle && changed_steps >= 2 {
